@@ -14,7 +14,7 @@
 (* A record ends with a verdict written to its own file                      *)
 (*   ok | drift (trace rejected at step n) | panic | out-mismatch | ref-mismatch | oom | cut *)
 (***************************************************************************)
-EXTENDS VM, JqSem
+EXTENDS VM, JqSem, CodeWF
 
 Batch == ndJsonDeserialize(IOEnv.VERIF_TRACE)
 MaxSteps == atoi(IOEnv.VERIF_MAXSTEPS)
@@ -73,7 +73,7 @@ RefOK ==
        IN IF r.e.k = "oom" THEN "oom"
           ELSE IF Len(o) = Len(r.o) /\ (\A i \in 1..Len(o) : o[i] = r.o[i]) /\ e.k = r.e.k THEN "ok" ELSE "mismatch"
 
-Verdict(v, extra) == [id |-> Rec.id, v |-> v, steps |-> vm.steps, n |-> n, nout |-> Len(vm.out)] @@ extra
+Verdict(v, extra) == [id |-> Rec.id, v |-> v, steps |-> vm.steps, n |-> n, nout |-> Len(vm.out), wf |-> CodeWF(Rec.code)] @@ extra
 Write(v) == ndJsonSerialize(IOEnv.VERIF_OUT \o "." \o ToString(k), <<v>>)
 
 Final ==
